@@ -22,7 +22,7 @@ Definition observer (conv : Z -> Z) (n : Z)
   else if n =? 4 then obs_C04
   else if n =? 6 then obs_C06 conv
   else if n =? 7 then obs_C07
-  else if n =? 8 then obs_C08
+  else if n =? 8 then obs_C08 conv
   else if n =? 9 then obs_C09 lut_g
   else if n =? 10 then obs_C10
   else if n =? 11 then obs_C11 lut_g
